@@ -107,6 +107,7 @@ Definition decode_fl_tuple (sc : fl_scn) (tp : tup8) : fl_scn :=
     setw (w2 <| f_groups ::= fun l => match aget a l with
                                       | Some gr => aset a (mkGroup (g_in gr) (g_out gr) (g_paths gr ++ [gp])) l
                                       | None => l end |>)
+  else if op =? 107 then setw (updd w a (fun x => x <| d_gen_pattern := map (fun c0 => c0 - 2) (nz [b; c; d; e; f; g]) |>))
   else if op =? 104 then setw (updd w a (fun x => x <| d_req := Some (mk_req6 [b; c; d; e; f; g]) |>))
   else if op =? 105 then
     let o := cbop_of_code c d e f in
